@@ -4,6 +4,7 @@ use regex::Regex;
 use smol_str::SmolStr;
 use unicode_segmentation::UnicodeSegmentation;
 
+use crate::fatal;
 use crate::features::side_by_side::ansifill::ODD_PAD_CHAR;
 
 #[derive(Debug, PartialEq, Eq)]
@@ -185,13 +186,15 @@ pub fn parse_line_number_format<'a>(
             placeholder: captures.get(1).map(|m| m.as_str()).try_into().ok(),
             alignment_spec: captures.get(3).map(|m| m.as_str()).try_into().ok(),
             width: captures.get(4).map(|m| {
-                m.as_str()
-                    .parse()
-                    .unwrap_or_else(|_| panic!("Invalid width in format string: {}", format_string))
+                m.as_str().parse().unwrap_or_else(|_| {
+                    fatal(format!("Invalid width in format string: {format_string}"))
+                })
             }),
             precision: captures.get(5).map(|m| {
                 m.as_str().parse().unwrap_or_else(|_| {
-                    panic!("Invalid precision in format string: {}", format_string)
+                    fatal(format!(
+                        "Invalid precision in format string: {format_string}"
+                    ))
                 })
             }),
             fmt_type: captures
